@@ -117,8 +117,8 @@ def build_admdrv(flavour='plain', extra_sources=()):
     flags = FLAVOURS[flavour].split()
     inc = ['-I' + os.path.join(REPO, 'include'), '-I' + bdir, '-I' + os.path.join(REPO, 'submodules', 'rapidxml'),
            '-I' + os.path.join(REPO, 'submodules'), '-I' + hdir]
-    hdr_m = _newest_mtime([os.path.join(REPO, 'include'), os.path.join(hdir, 'drv.hpp'),
-                           os.path.join(REPO, 'submodules', 'rapidxml')])
+    hdr_m = _newest_mtime([os.path.join(REPO, 'include'), os.path.join(REPO, 'submodules', 'rapidxml')]
+                          + [os.path.join(hdir, f) for f in os.listdir(hdir) if f.endswith('.hpp')])
     present = [k for k, (src, _f) in DRV_PARTS.items() if os.path.exists(os.path.join(hdir, src))]
     defs = []
     for k in present:
